@@ -2,6 +2,8 @@
 Used by the sessions of C01 C02 C05 C06 C12 C14."""
 import io
 
+import numpy as np
+
 import absval as A
 import common
 from sx import Sym
@@ -35,11 +37,18 @@ def items_of(kind, obj):
     return []
 
 
-def real_side(kind, v, wide=False, vpstyle=0, tail=SENTINEL, prov=None):
-    r = dict(stage="build")
+def observe_obj(kind, obj, tail=SENTINEL, touch=False):
+    """everything the block sessions look at, for an object that already exists (fresh, or used and edited before)"""
+    r = dict(stage="abs0")
     try:
-        obj = A.build(kind, v, wide=wide, vpstyle=vpstyle, prov=prov)
-        r["stage"] = "abs0"
+        if touch:
+            # what any program does with a block before it writes it: print it, ask for its size, walk over it, compare it
+            for f in (lambda: repr(obj), lambda: [repr(it) for it, _ in items_of(kind, obj)], lambda: obj == obj, lambda: int(obj.nBytes),
+                      lambda: [int(it.nBytes) for it, _ in items_of(kind, obj)]):
+                try:
+                    f()
+                except Exception:
+                    pass
         r["abs0"] = A.norm(A.absv(kind, obj))
         r["stage"] = "nbytes"
         r["nbytes"] = int(obj.nBytes)
@@ -62,6 +71,155 @@ def real_side(kind, v, wide=False, vpstyle=0, tail=SENTINEL, prov=None):
     except Exception as e:  # recorded, judged by the session
         r["exc"] = f"{type(e).__name__}: {e}"
     return r
+
+
+def real_side(kind, v, wide=False, vpstyle=0, tail=SENTINEL, prov=None):
+    try:
+        obj = A.build(kind, v, wide=wide, vpstyle=vpstyle, prov=prov)
+    except Exception as e:
+        return dict(stage="build", exc=f"{type(e).__name__}: {e}")
+    return observe_obj(kind, obj, tail)
+
+
+# ------------------------------------------------------------------ object life cycle: use, edit in place, use again
+
+def _w(obj, attr, idx, val):
+    """in-place write into an array attribute (an edited copy is assigned when the array is read-only)"""
+    a = getattr(obj, attr)
+    if not a.flags.writeable:
+        a = a.copy()
+        setattr(obj, attr, a)
+    a[idx] = val
+
+
+def _fin(rng):
+    return A.f32([A.gen_f32(rng, finite=True)])[0]
+
+
+TRACK_ARRAYS = dict(data3d=["data"], emg=["data"], force3d=["application_point", "force", "torque"],
+                    platdata=["application_point", "force", "torque"])
+
+
+def apply_edit(kind, obj, rng):
+    """ONE edit through public attributes that keeps the block valid (a sample poked, a gap filled, a frame blanked, a label,
+    a header field, a nested viewport component, a whole array replaced). Returns a description, or None if nothing applies."""
+    items = [it for it, _ in items_of(kind, obj)] if kind != "data2d" else []
+    r = rng.random()
+    if kind in TRACK_ARRAYS:
+        if items and r < 0.75:
+            it = rng.choice(items)
+            attrs = TRACK_ARRAYS[kind]
+            n = len(getattr(it, attrs[0]))
+            if n == 0:
+                return None
+            i = rng.randrange(n)
+            missing = all(np.isnan(np.asarray(getattr(it, a))[i]).all() for a in attrs)
+            how = "fill" if missing else rng.choice(["blank", "poke", "poke", "replace-array"])
+            for a in attrs:
+                arr = getattr(it, a)
+                row = arr[i]
+                if how == "blank":
+                    _w(it, a, i, np.nan)
+                elif how == "replace-array":
+                    new = np.array(arr, copy=True)
+                    new[i] = [_fin(rng) for _ in range(np.size(row))] if np.ndim(row) else _fin(rng)
+                    setattr(it, a, new)
+                else:
+                    _w(it, a, i, [_fin(rng) for _ in range(np.size(row))] if np.ndim(row) else _fin(rng))
+            return f"{how} frame {i} of item {items.index(it)}"
+        if items and r < 0.85 and kind != "platdata":
+            it = rng.choice(items)
+            it.label = A.text(A.gen_label(rng, 256))
+            return f"relabel item {items.index(it)}"
+        if kind in ("data3d", "force3d") and r < 0.93:
+            _w(obj, rng.choice(["volume", "translationVector"]), rng.randrange(3), _fin(rng))
+            return "poke geometry"
+        obj.frequency = int(rng.choice([1, 50, 100, 1000, 2 ** 31 - 1]))
+        return "frequency"
+    if kind == "optical":
+        if not items:
+            obj.format = type(obj.format)(1 - obj.format.value) if obj.format.value in (0, 1) else obj.format
+            return "format"
+        c = rng.choice(items)
+        k = items.index(c)
+        if r < 0.3:
+            setattr(c.camera_viewport, rng.choice(["origin", "size"]), np.array([A.gen_i32(rng), A.gen_i32(rng)], dtype="<i4"))
+            return f"channel {k}: viewport half assigned"
+        if r < 0.55:
+            half = rng.choice(["origin", "size"])
+            _w(c.camera_viewport, half, rng.randrange(2), A.gen_i32(rng))
+            return f"channel {k}: viewport component poked"
+        if r < 0.7:
+            c.camera_viewport = A.viewport(A.gen_vp(rng))
+            return f"channel {k}: viewport replaced"
+        if r < 0.85:
+            setattr(c, rng.choice(["lens_name", "camera_type", "camera_name"]), A.text(A.gen_label(rng, 32)))
+            return f"channel {k}: name"
+        c.logical_camera_index = A.gen_i32(rng)
+        return f"channel {k}: index"
+    if kind == "events":
+        if items and r < 0.8:
+            e = rng.choice(items)
+            if len(e.values) and r < 0.5:
+                _w(e, "values", rng.randrange(len(e.values)), _fin(rng))
+                return "event value poked"
+            e.label = A.text(A.gen_label(rng, 256))
+            return "event relabelled"
+        obj.start_time = _fin(rng)
+        return "start_time"
+    if kind == "platcalib":
+        if not items:
+            return None
+        p_ = rng.choice(items)
+        if r < 0.4:
+            _w(p_, "position", (rng.randrange(4), rng.randrange(3)), _fin(rng))
+            return "platform position poked"
+        if r < 0.7:
+            _w(p_, "size", rng.randrange(2), _fin(rng))
+            return "platform size poked"
+        p_.label = A.text(A.gen_label(rng, 256))
+        return "platform relabelled"
+    if kind == "calib":
+        if items and r < 0.7:
+            c = rng.choice(items)
+            if r < 0.3:
+                _w(c.view_port, rng.choice(["origin", "size"]), rng.randrange(2), A.gen_i32(rng))
+                return "camera viewport component poked"
+            _w(c, rng.choice(["focus", "optical_center", "translation_vector"]), 0, float(A.f64([A.gen_f64(rng)])[0]))
+            return "camera parameter poked"
+        _w(obj, "calibration_volume_size", rng.randrange(3), _fin(rng))
+        return "calibration volume poked"
+    if kind == "data2d":
+        arr = obj.data
+        if arr is None or arr.size == 0:
+            return None
+        new = np.array(arr, copy=True)
+        i, j = rng.randrange(new.shape[0]), rng.randrange(new.shape[1])
+        new[i, j] = None if (new[i, j] is not None and r < 0.4) else A.f32([A.gen_f32(rng) for _ in range(2 * rng.choice([1, 2, 3]))]).reshape(-1, 2)
+        obj.data = new
+        return f"cell ({i},{j}) replaced"
+    return None
+
+
+def lifecycle(kind, v, rng, n_edits=2, wide=False, vpstyle=0):
+    """build once, use (print / size / encode / decode), then edit IN PLACE and use again, n_edits times.
+    returns [(abstract value of the object at that moment, description, observation)]; the first element is the fresh object"""
+    try:
+        obj = A.build(kind, v, wide=wide, vpstyle=vpstyle)
+    except Exception as e:
+        return [(v, "fresh", dict(stage="build", exc=f"{type(e).__name__}: {e}"))]
+    out = [(v, "fresh", observe_obj(kind, obj, touch=True))]
+    for _ in range(n_edits):
+        try:
+            what = apply_edit(kind, obj, rng)
+        except Exception as e:
+            out.append((None, "edit raised", dict(stage="edit", exc=f"{type(e).__name__}: {e}")))
+            break
+        if what is None:
+            break
+        r = observe_obj(kind, obj, touch=True)
+        out.append((r.get("abs0"), what, r))
+    return out
 
 
 def model_side(cases, tail=SENTINEL):
